@@ -30,6 +30,12 @@ use std::borrow::Cow;
 /// `#[b]` on a `Cow` whose lifetime argument is spelled `'static`: decoding from a `'static` input borrows
 #[derive(Encode, Decode, CborLen, Debug, PartialEq)] struct CowS { #[b(0)] a: Cow<'static, str>, #[n(1)] z: u8 }
 
+/// an `index_only` enum whose variant carries a tag attribute (never written: an index_only value is its index alone), a transparent newtype
+/// whose single field carries a tag attribute (a transparent newtype is its field, nothing in front)
+#[derive(Encode, Decode, CborLen, Debug, PartialEq, Clone, Copy)] #[cbor(index_only)] enum IoT { #[n(0)] A, #[cbor(n(1), tag(5))] B, #[cbor(n(300), tag(70000))] C }
+#[derive(Encode, Decode, CborLen, Debug, PartialEq)] #[cbor(transparent)] struct TrT(#[cbor(n(0), tag(1001))] u64);
+#[derive(Encode, Decode, CborLen, Debug, PartialEq)] struct TrOuter { #[n(0)] a: TrT, #[n(1)] b: Option<TrT>, #[n(2)] k: IoT }
+
 /// a three-state user type: `Keep` is its nil value (left out by the derived encoder, filled in by `Decode::nil`), `Clear` is written as
 /// `null` — a present value, which only the type's own decoder can tell from a number
 #[derive(Debug, PartialEq, Clone, Copy)] enum Patch { Keep, Clear, Set(u8) }
@@ -117,6 +123,39 @@ pub fn run(w: &[&str]) -> String {
                     else { format!("{} len={} dec={},{} pos={}", hex(b), n, hex(x.a.as_bytes()), x.z, d.position()) }
                 }
                 Err(e) => format!("{} len={} dec=err:{} pos={}", hex(b), n, dclass(&e), d.position())
+            }
+        }
+        ("IoT", [k]) => { let v = match *k { "A" => IoT::A, "B" => IoT::B, _ => IoT::C }; rt(&v, |x| format!("{:?}", x)) }
+        ("TrT", [n]) => rt(&TrT(n.parse().ok()?), |x| format!("{}", x.0)),
+        ("TrOuter", [a, b, k]) => rt(&TrOuter { a: TrT(a.parse().ok()?), b: if *b == "N" { None } else { Some(TrT(b.parse().ok()?)) }, k: match *k { "A" => IoT::A, "B" => IoT::B, _ => IoT::C } },
+            |x| format!("{},{},{:?}", x.a.0, x.b.as_ref().map(|t| t.0.to_string()).unwrap_or("N".into()), x.k)),
+        // a mandatory field of a one-valued type that is absent is missing like any other
+        ("UnitMiss", [id]) => {
+            let idn: u8 = id.parse().ok()?;
+            let mut b = vec![0x81]; b.extend_from_slice(&minicbor::to_vec(idn).ok()?);
+            let r1 = minicbor::decode::<UnitA<()>>(&b).map(|_| ()).map_err(|e| dclass(&e));
+            let mut m = vec![0xa1, 0x00]; m.extend_from_slice(&minicbor::to_vec(idn).ok()?);
+            let r2 = minicbor::decode::<UnitM<std::marker::PhantomData<String>>>(&m).map(|_| ()).map_err(|e| dclass(&e));
+            format!("{} len=0 dec={:?}/{:?} pos=0", hex(&b), r1, r2).replace(' ', "_").replacen("_len=0_dec=", " len=0 dec=", 1).replacen("_pos=0", " pos=0", 1)
+        }
+        // ONE decoder through `n` failed decodes of a derived type (missing field / wrong tag / unknown variant), then a good one
+        ("Reuse", [n]) => {
+            let n: usize = n.parse().ok()?;
+            let good = minicbor::to_vec(&FltA { id: 7, a: 1.5, b: 2.5 }).ok()?;
+            let bads: [&[u8]; 3] = [&[0x81, 0x01], &[0x83, 0x01, 0x61, 0x61, 0x00], &[0x82, 0x09, 0x80]];
+            let mut buf = Vec::new(); let mut starts = Vec::new();
+            for b in bads { starts.push(buf.len()); buf.extend_from_slice(b) }
+            let gpos = buf.len(); buf.extend_from_slice(&good);
+            let mut d = minicbor::Decoder::new(&buf);
+            for i in 0 .. n {
+                d.set_position(starts[i % 3]);
+                let failed = match i % 3 { 0 => d.decode::<FltA>().is_err(), 1 => d.decode::<FltM>().is_err(), _ => d.decode::<BoxE>().is_err() };
+                if !failed { return Some(format!("{} len=0 dec=unexpected-ok-at-{} pos=0", hex(&buf), i)) }
+            }
+            d.set_position(gpos);
+            match d.decode::<FltA>() {
+                Ok(x) => format!("{} len={} dec={},{:08x},{:016x} pos={}", hex(&good), good.len(), x.id, x.a.to_bits(), x.b.to_bits(), d.position() - gpos),
+                Err(e) => format!("{} len={} dec=err:{} pos={}", hex(&good), good.len(), dclass(&e), d.position() - gpos)
             }
         }
         ("BoxMid", [p, id]) => rt(&BoxMid { parent: Box::new(opt_u8(p)?), id: id.parse().ok()? }, |x| format!("{},{}", show_opt(&x.parent), x.id)),
